@@ -55,7 +55,7 @@ const siteImplied = "gocty.ImpliedType"
 func (Driver) Run(c *core.Ctx) {
 	fam := family()
 	nts := numTargets()
-	n := int64(c.N(3200, 600000))
+	n := int64(c.N(64000, 600000))
 	for i := int64(0); i < n; i++ {
 		if !c.Want(i) {
 			continue
